@@ -61,6 +61,15 @@ def captured():
 
 trace({"ev": "import", "argv": sys.argv[1:6]})
 
+
+def _at_exit():
+    # what the process is left with when the run is over (or was aborted): are the std streams still capture buffers?
+    trace({"ev": "exit", "cap": captured()})
+
+
+import atexit  # noqa: E402
+atexit.register(_at_exit)
+
 if WORLD.get("sysPathObject"):
     import pathlib
     sys.path.append(pathlib.Path(HERE) / "not-a-string-entry")
@@ -258,6 +267,10 @@ def build_layers():
 
 
 build_layers()
+# every layer object is also reachable under a second dotted name (wrt.ALIAS_<index>): tests may declare their layer
+# by that string
+for _i, _l in enumerate(LAYERS):
+    globals()["ALIAS_%d" % _i] = _l
 
 
 def do_part(test, ph, part):
@@ -322,6 +335,11 @@ def do_part(test, ph, part):
         # test code that changes the warning filters and does not restore them
         import warnings
         warnings.filterwarnings("ignore", message="ztr world %s" % (ph,))
+    if part.get("close"):
+        for name_, wanted in (("stdout", ("out", "both")), ("stderr", ("err", "both"))):
+            stream_ = getattr(sys, name_)
+            if part["close"] in wanted and type(stream_).__name__ == "BufferedStandardStream":
+                stream_.close()
     if part.get("leakstreams"):
         # a test that installs a stream of its own as sys.stdout and sys.stderr and goes wrong before it can put
         # back what it found (only in worlds run with --buffer, where the runner owns the std streams of a test)
@@ -494,13 +512,13 @@ def build_suite(node):
     if node["t"] == "leaf":
         t = make_doctest(tests[node["id"]]) if tests[node["id"]].get("doctest") else make_test(tests[node["id"]])
         if node.get("lyr") is not None:
-            t.__class__.layer = LAYERS[node["lyr"]]
+            t.__class__.layer = ("wrt.ALIAS_%d" % node["lyr"]) if node.get("lyrAlias") else LAYERS[node["lyr"]]
         if node.get("lvl") is not None:
             t.__class__.level = node["lvl"]
         return t
     s = unittest.TestSuite([build_suite(k) for k in node["kids"]])
     if node.get("lyr") is not None:
-        s.layer = LAYERS[node["lyr"]]
+        s.layer = ("wrt.ALIAS_%d" % node["lyr"]) if node.get("lyrAlias") else LAYERS[node["lyr"]]
     if node.get("lvl") is not None:
         s.level = node["lvl"]
     return s
